@@ -4,6 +4,7 @@
 -/
 import Lcapy.Proofs.Linear
 import Lcapy.Model.Decompose
+import Lcapy.Spec.Noise
 import Lcapy.Props.C01
 namespace Lcapy.C03
 open Lcapy.MNA Ix
@@ -111,6 +112,47 @@ theorem grouping_invariant (C S : K → K) (X : Nat → K) (ts ts' : List (Term 
   | cons _ _ ih => simp [sumK, ih]
   | swap a b l => simp [sumK]; ring
   | trans _ _ ih1 ih2 => rw [ih1, ih2]
+end
+
+/-! ### noise: same identifier adds in amplitude, distinct identifiers add in power -/
+section
+open Lcapy.Noise
+
+/-- two sources of ONE noise identifier seen through the same transfer function: amplitudes add -/
+theorem noise_same_id_amplitude (h : K × K) (a b : K) :
+    noisePower [[(h, a), (h, b)]] = normSq h * ((a + b) * (a + b)) := by
+  simp [noisePower, groupSum, normSq]; ring
+
+/-- two sources with DISTINCT identifiers: powers add -/
+theorem noise_distinct_ids_power (h : K × K) (a b : K) :
+    noisePower [[(h, a)], [(h, b)]] = normSq h * (a * a + b * b) := by
+  simp [noisePower, groupSum, normSq]; ring
+
+theorem groupSum_perm (g g' : List ((K × K) × K)) (hp : g.Perm g') : groupSum g = groupSum g' := by
+  induction hp with
+  | nil => rfl
+  | cons x _ ih => obtain ⟨⟨re, im⟩, a⟩ := x; simp [groupSum, ih]
+  | swap x y l =>
+    obtain ⟨⟨re, im⟩, a⟩ := x; obtain ⟨⟨re', im'⟩, a'⟩ := y
+    simp [groupSum]; constructor <;> ring
+  | trans _ _ ih1 ih2 => rw [ih1, ih2]
+
+/-- the total does not depend on the order in which the noise sources of an identifier are listed,
+    nor on the order of the identifiers -/
+theorem noisePower_perm (gs gs' : List (List ((K × K) × K))) (hp : gs.Perm gs') :
+    noisePower gs = noisePower gs' := by
+  induction hp with
+  | nil => rfl
+  | cons _ _ ih => simp [noisePower, ih]
+  | swap x y l => simp [noisePower]; ring
+  | trans _ _ ih1 ih2 => rw [ih1, ih2]
+
+/-- splitting one identifier group into two identifiers changes the power by the cross term:
+    same-identifier sources are NOT interchangeable with distinct ones -/
+theorem noise_cross_term (h1 h2 : K × K) (a b : K) :
+    noisePower [[(h1, a), (h2, b)]] =
+      noisePower [[(h1, a)], [(h2, b)]] + 2 * (a * b) * (h1.1 * h2.1 + h1.2 * h2.2) := by
+  simp [noisePower, groupSum, normSq]; ring
 end
 
 /-- non-vacuity: two sinusoids of one frequency plus DC -/
